@@ -1,13 +1,23 @@
+import HapModel.Drv.C01
 import HapModel.Drv.C14
 import HapModel.Drv.C18
 namespace Drv
 open Lean
 
-def dispatch (op : String) (j : Json) : R Json :=
+def dispatch1 (op : String) (j : Json) : R Json :=
   match op with
   | "findCoord" => hFindCoord j
   | "noReplRun" => hNoReplRun j
   | "karyogram" => hKaryogram j
+  | "getSegment" => hGetSegment j
+  | "simGen" => hSimGen j
   | _ => throw s!"unknown op {op}"
+
+/-- {"op":"batch","reqs":[…]} → {"resps":[…]} -/
+def dispatch (op : String) (j : Json) : R Json :=
+  if op = "batch" then do
+    let rs ← (← arrF j "reqs").mapM (fun r => do dispatch1 (← strF r "op") r)
+    pure <| jObj [("resps", jArr rs)]
+  else dispatch1 op j
 
 end Drv
